@@ -12,4 +12,6 @@ def run(rep, tier, seed):
         "refusal proved at constructor level for every field with opaque tokens of any length (UIDs free of '&'), and at text level for tokens of 1..4 printable ASCII characters per field, UIDs of 37, 38 and 40 characters, every single mandatory-field omission and adjacent transposition; COMPRESSION is optional by documented intent and its omission is not demanded to fail",
     ]
     run_contracts(rep, "contracts.header", tier, seed)
+    # the same round trip as a file goes: header text + body through parse_header (the C05 companion: layouts x field values, bounded)
+    run_contracts(rep, "contracts.header_native", tier, seed, accept_props=["C05"])
     replay_known_findings(rep)
